@@ -21,8 +21,12 @@ open C12
 
 def Result.hasEdge (r : Result) (x y : Int) : Bool := r.edges.contains (x, y) || r.edges.contains (y, x)
 
-/-- key and block attributes (name, resid, charge group) of an output particle -/
-def Bead.core (b : Bead) : Int × Attrs := (b.key, { name := b.name, resid := b.resid, cg := b.cg })
+/-- the observable core of a particle: key, name, resid, charge group -/
+abbrev Core := Int × Option String × Option Int × Option Int
+def Bead.core (b : Bead) : Core := (b.key, b.name, b.resid, b.cg)
+/-- the same projection of a node of the `merge_molecule` table (the chain attribute of C12's nodes is
+not part of the particle model of C01) -/
+def coreOf (n : Int × Attrs) : Core := (n.1, n.2.name, n.2.resid, n.2.cg)
 
 /-! ## ordering of the matches (do_mapping.py:569-585) -/
 
@@ -49,13 +53,13 @@ theorem beadOf_key (m : MolIn) (st : St) (n : Int × Attrs) : (beadOf m st n).ke
 /-- a particle that has a resid (every particle made by `merge_molecule` has) keeps key, name,
 resid and charge group through the attribute loop -/
 theorem beadOf_core (m : MolIn) (st : St) (n : Int × Attrs) (hr : n.2.resid.isSome = true) :
-    (beadOf m st n).core = n := by
+    (beadOf m st n).core = coreOf n := by
   obtain ⟨k, a⟩ := n
-  obtain ⟨nm, rs, cg⟩ := a
+  obtain ⟨nm, rs, cg, ch⟩ := a
   cases rs with
   | none => cases hr
   | some r =>
-    unfold beadOf Bead.core
+    unfold beadOf Bead.core coreOf
     split
     · rfl
     · split <;> rfl
@@ -90,12 +94,11 @@ theorem nodesSpec_resid_some (o : Off) (ps : List Placement) :
 processing order, of each placement's block nodes under the key shift and offsets of
 `merge_molecule`: exactly one copy per placement, nothing else. -/
 theorem assemble_nodes (m : MolIn) (ps : List Placement) (r : Result) (h : assemble m ps = .ok r) :
-    r.beads.map Bead.core = nodesSpec Off.zero (order ps) := by
+    r.beads.map Bead.core = (nodesSpec Off.zero (order ps)).map coreOf := by
   obtain ⟨hok, rfl⟩ := assemble_ok m ps r h
   unfold finish
   simp only [List.map_map]
   rw [(withInterEdges_spec m _ hok).1, (placeAll_spec _ hok).1]
-  conv => rhs; rw [← List.map_id (nodesSpec Off.zero (order ps))]
   apply List.map_congr_left
   intro n hn
   exact beadOf_core m _ n (nodesSpec_resid_some _ _ n hn)
@@ -128,7 +131,8 @@ the last particle of the prefix (0 when there is none); same for the charge grou
 theorem assemble_resid (m : MolIn) (ps : List Placement) (r : Result) (h : assemble m ps = .ok r)
     (pre post : List Placement) (p : Placement) (hsplit : order ps = pre ++ p :: post) :
     let o := Off.zero.after pre
-    r.beads.map Bead.core = nodesSpec Off.zero pre ++ shiftNodes o p.block ++ nodesSpec (o.next p.block) post
+    r.beads.map Bead.core =
+      (nodesSpec Off.zero pre ++ shiftNodes o p.block ++ nodesSpec (o.next p.block) post).map coreOf
     ∧ o.n = (nodesSpec Off.zero pre).length
     ∧ o.roff = (match lastA (nodesSpec Off.zero pre) with | none => 0 | some a => a.resid.getD 1)
     ∧ o.coff = (match lastA (nodesSpec Off.zero pre) with | none => 0 | some a => a.cg.getD 1) := by
@@ -173,8 +177,8 @@ placement (counting from 1) all have resid `i`: residues are numbered 1, 2, …,
 theorem resid_consecutive (m : MolIn) (ps : List Placement) (r : Result) (h : assemble m ps = .ok r)
     (hs : ∀ q ∈ order ps, SingleResidue q)
     (pre post : List Placement) (p : Placement) (hsplit : order ps = pre ++ p :: post) :
-    r.beads.map Bead.core = nodesSpec Off.zero pre ++ shiftNodes (Off.zero.after pre) p.block
-        ++ nodesSpec ((Off.zero.after pre).next p.block) post
+    r.beads.map Bead.core = (nodesSpec Off.zero pre ++ shiftNodes (Off.zero.after pre) p.block
+        ++ nodesSpec ((Off.zero.after pre).next p.block) post).map coreOf
     ∧ ∀ n ∈ shiftNodes (Off.zero.after pre) p.block, n.2.resid = some ((pre.length : Int) + 1) := by
   refine ⟨(assemble_resid m ps r h pre post p hsplit).1, ?_⟩
   intro n hn
